@@ -56,9 +56,10 @@ type Config struct {
 	InterBlockCache []bool `json:"interblock_cache"`
 	ClockSkewMs     []int  `json:"clock_skew_ms"`
 	NaturalMapOrder bool   `json:"natural_map_order"`
-	ELMaxOps        int    `json:"el_max_ops,omitempty"` // user operations per execution block (0: 12)
-	LastExit        bool   `json:"last_exit,omitempty"`  // the run ends with every validator unlocking everything (can the set empty itself?)
-	Bursts          bool   `json:"bursts,omitempty"`     // generators may emit bursts larger than the per-block hand-over caps
+	ELMaxOps        int    `json:"el_max_ops,omitempty"`  // user operations per execution block (0: 12)
+	LastPunish      bool   `json:"last_punish,omitempty"` // the run ends with double-sign evidence against every member of the set in one block
+	LastExit        bool   `json:"last_exit,omitempty"`   // the run ends with every validator unlocking everything (can the set empty itself?)
+	Bursts          bool   `json:"bursts,omitempty"`      // generators may emit bursts larger than the per-block hand-over caps
 
 	FaultFree bool               `json:"fault_free"`
 	Weights   map[string]float64 `json:"weights,omitempty"` // step-kind weights of the profile (after swarm selection)
